@@ -160,6 +160,7 @@ const (
 	cgExact      // a known integer
 	cgBool
 	cgOther // strings etc.
+	cgNonZero // an integer known to differ from 0 (the sub-second remainder of a non-whole duration)
 )
 
 type cgVal struct {
@@ -239,6 +240,15 @@ func durationGuardCheck(f *ssa.Function, cutOf func(*ssa.Return, func(ssa.Value)
 								case token.NEQ:
 									res = cgVal{k: cgBool, b: !whole}
 								}
+							case a.k == cgNs && x.Op == token.REM && bok && bv == second:
+								// d % 1s: zero exactly for whole-second durations
+								if whole {
+									res = cgVal{k: cgExact, n: 0}
+								} else {
+									res = cgVal{k: cgNonZero}
+								}
+							case a.k == cgNonZero && bok && bv == 0 && (x.Op == token.EQL || x.Op == token.NEQ):
+								res = cgVal{k: cgBool, b: x.Op == token.NEQ}
 							case a.k == cgSec && x.Op == token.REM && bok && bv > 0 && 3600%bv == 0:
 								res = cgVal{k: cgExact, n: sign * (r % bv)}
 							case a.k == cgSec && bok && bv == 0:
